@@ -226,6 +226,16 @@ func (i *Index) AddDesc(d Descriptor, opts ...IndexOpt) {
 			}
 		}
 	}
+	// prefer an entry that already carries the same tag or referrer
+	if tag != "" || referrer != "" {
+		for mi, md := range i.Manifests {
+			if md.Digest == d.Digest && md.Annotations != nil &&
+				md.Annotations[AnnotRefName] == tag && md.Annotations[AnnotReferrerSubject] == referrer {
+				i.Manifests[mi] = d
+				return
+			}
+		}
+	}
 	// search for matching or compatible entry
 	for mi, md := range i.Manifests {
 		if md.Digest == d.Digest {
